@@ -82,7 +82,7 @@ STUBS = [
     "round-trips float64 data and float header cards; writeto raises OSError when the path exists and FileNotFoundError when its directory does not); "
     "hdu.data is an ndarray whose astype('float') keeps proxy entries; open(mode='update') edits the stored file in place (all cards not "
     "overwritten and all further HDUs are kept, Header.update sets / appends cards, flush / close / leaving the with-block write back)",
-    "os.path.exists / os.makedirs / os.remove inside array_2d_util and array_1d_util (symbolic runs only): in-memory directory/file sets with POSIX "
+    "os.path.exists / os.makedirs / os.remove (and pathlib.Path.exists / is_file / is_dir / mkdir / unlink) inside every autoarray module that imports them (symbolic runs only): in-memory directory/file sets with POSIX "
     "behaviour (exists('') is False, makedirs('') raises FileNotFoundError, makedirs creates all ancestors, remove deletes the file)",
     "type(x) inside geometry_util / mask_1d: a symbolic real counts as a Python float (header values returned by astropy are Python floats)",
 ]
@@ -105,10 +105,42 @@ def _sym_mode():
 
 # ---------------------------------------------------------------------------- in-memory model of astropy.io.fits + os
 
+def _is_single(dtype):
+    try:
+        dt = np.dtype(dtype)
+    except TypeError:
+        return False
+    return dt.kind == "f" and dt.itemsize < 8
+
+
+def r32_term(t):
+    """single-precision rounding of a symbolic real: uninterpreted function r32 with the IEEE relative error bound
+    |r32(x) - x| <= 2^-24 |x| (normal range; overflow / subnormals outside). Whether r32(x) == x is left open here."""
+    c = V.ctx()
+    f = c.uf("r32", 1)
+    r = f(t)
+    d = r - t
+    bound = V.rval(2.0 ** -24) * z3.If(t >= 0, t, -t)
+    c.assume(z3.And(d <= bound, -d <= bound))
+    return r
+
+
+def _single_cast(arr):
+    """astype(float32 / float16) of an object array: proxies go through r32, concrete entries through numpy's float32"""
+    out = np.empty(arr.shape, dtype=object)
+    fo = out.reshape(-1)
+    for i, e in enumerate(np.asarray(arr).reshape(-1)):
+        fo[i] = V.SymReal(r32_term(V.to_real_term(e))) if V.is_sym(e) else np.float64(np.float32(e))
+    return out.view(SymNd)
+
+
 class SymNd(np.ndarray):
-    """object ndarray whose astype(float) keeps proxies (numpy would call float() on every entry)"""
+    """object ndarray whose astype(float) keeps proxies (numpy would call float() on every entry); a cast to single precision
+    rounds (r32), so a float32 HDU reads back the float32-rounded values"""
 
     def astype(self, dtype, *a, **kw):
+        if self.dtype == object and shim.has_sym(self) and _is_single(dtype):
+            return _single_cast(self)
         if self.dtype == object and shim.has_sym(self):
             try:
                 kind = np.dtype(dtype).kind
@@ -324,6 +356,44 @@ class OSFacade:
         return os.remove(p)
 
 
+import pathlib
+
+
+class VPath(type(pathlib.Path())):
+    """stands in for the `Path` global of the repository modules: file-system queries consult the in-memory files while symbolic"""
+
+    def exists(self, *a, **kw):
+        if _sym_mode():
+            return _VFS[0].exists(str(self))
+        return super().exists(*a, **kw)
+
+    def is_file(self, *a, **kw):
+        if _sym_mode():
+            return str(self) in _VFS[0].files
+        return super().is_file(*a, **kw)
+
+    def is_dir(self, *a, **kw):
+        if _sym_mode():
+            return str(self) in _VFS[0].dirs
+        return super().is_dir(*a, **kw)
+
+    def mkdir(self, mode=0o777, parents=False, exist_ok=False):
+        if _sym_mode():
+            if _VFS[0].exists(str(self)):
+                if exist_ok:
+                    return
+                raise FileExistsError(17, "File exists", str(self))
+            return _VFS[0].makedirs(str(self))
+        return super().mkdir(mode=mode, parents=parents, exist_ok=exist_ok)
+
+    def unlink(self, missing_ok=False):
+        if _sym_mode():
+            if str(self) not in _VFS[0].files and missing_ok:
+                return
+            return _VFS[0].remove(str(self))
+        return super().unlink(missing_ok=missing_ok)
+
+
 FITS = FitsFacade()
 OSF = OSFacade()
 
@@ -345,6 +415,16 @@ def POST_INSTALL():
             d["fits"] = FITS
         if d.get("os") is os:
             d["os"] = OSF
+    # every other repository module that consults the file system must see the same (in-memory) files while symbolic
+    for name, mod in list(sys.modules.items()):
+        if mod is not None and (name == "autoarray" or name.startswith("autoarray.")):
+            d = mod.__dict__
+            if d.get("os") is os:
+                d["os"] = OSF
+            if d.get("path") is os.path:
+                d["path"] = OSF.path
+            if d.get("Path") is pathlib.Path:
+                d["Path"] = VPath
     # header values are Python floats in reality: `type(pixel_scales) is float` must hold for a symbolic real
     for name in ("autoarray.geometry.geometry_util", "autoarray.mask.mask_1d"):
         d = sys.modules[name].__dict__
@@ -359,6 +439,18 @@ def POST_INSTALL():
         return r
 
     shim.NPFacade.array = array
+    # the engine's own object-array type models every float cast as exact: single-precision casts must round
+    sym_array = getattr(V, "SymArray", None)
+    if sym_array is not None and not getattr(sym_array, "_c16_single", False):
+        orig_astype = sym_array.astype
+
+        def astype(self, dtype, *a, **kw):
+            if self.dtype == object and _is_single(dtype) and shim.has_sym(self):
+                return _single_cast(self)
+            return orig_astype(self, dtype, *a, **kw)
+
+        sym_array.astype = astype
+        sym_array._c16_single = True
     _STUBBED[0] = True
 
 
@@ -467,6 +559,16 @@ def _centred(b, new_shape):
             if 0 <= yy < H and 0 <= xx < W:
                 out[y, x] = b[yy, xx]
     return out
+
+
+def _fails(r):
+    """'writing to an existing path fails': any OSError subclass (FileExistsError, ...) counts as the documented failure"""
+    import builtins
+    if isinstance(r, hx.Raised):
+        cls = getattr(builtins, r.name, None)
+        if isinstance(cls, type) and issubclass(cls, OSError):
+            return hx.Raised("OSError")
+    return r
 
 
 def _get(o, f):
@@ -662,7 +764,8 @@ FS_KINDS = ("nested", "absdir", "reldir", "bare")
 FS_STEPS = ("first.write", "first.read", "first.scale", "refused.write", "refused.read", "refused.scale",
             "overwrite.write", "overwrite.read", "overwrite.scale", "overwrite_absent.write", "overwrite_absent.read",
             "overwrite.cards", "overwrite.n_hdus", "multi.write", "multi.read", "multi.scale", "multi.cards", "multi.n_hdus",
-            "plain.write", "plain.fresh_write", "plain.read", "plain.scale", "plain.cards")
+            "plain.write", "plain.fresh_write", "plain.read", "plain.scale", "plain.cards",
+            "partial.psf.write", "partial.psf.kept", "partial.noise.write", "partial.noise.kept")
 
 
 def _plain(content):
@@ -776,7 +879,7 @@ def body_fs(inp, H, W, H2, W2, flip, writer, kind):
             A["first.write"], E["first.write"] = write(o_old, first, False), None
             A["first.read"], A["first.scale"] = read(first, s_old)
             E["first.read"], E["first.scale"] = content_of(old, "a"), list(s_old)
-            A["refused.write"], E["refused.write"] = write(o_new, first, False), hx.Raised("OSError")
+            A["refused.write"], E["refused.write"] = _fails(write(o_new, first, False)), hx.Raised("OSError")
             A["refused.read"], A["refused.scale"] = read(first, s_old)
             E["refused.read"], E["refused.scale"] = content_of(old, "a"), list(s_old)
             A["overwrite.write"], E["overwrite.write"] = write(o_new, first, True), None
@@ -785,6 +888,14 @@ def body_fs(inp, H, W, H2, W2, flip, writer, kind):
             A["overwrite_absent.write"], E["overwrite_absent.write"] = write(o_new, fresh, True), None
             A["overwrite_absent.read"], E["overwrite_absent.read"] = read(fresh, s_new)[0], content_of(new, "b")
             if writer == "imaging":
+                # interaction of the three files: ONE pre-existing target among fresh ones must make overwrite=False fail and stay untouched
+                for j, part in ((2, "psf"), (1, "noise")):
+                    mixed = [fresh[i].replace("fresh_", "mixed_%s_" % part) for i in range(3)]
+                    mixed[j] = first[j]
+                    A["partial.%s.write" % part] = _fails(write(o_old, mixed, False))
+                    E["partial.%s.write" % part] = hx.Raised("OSError")
+                    back = hx.attempt(lambda: aa.Array2D.from_fits(file_path=first[j], pixel_scales=sc(s_new)))
+                    A["partial.%s.kept" % part], E["partial.%s.kept" % part] = _nat(back), content_of(new, "b")[j]
                 return
             # "the new content fully replaces the old": the overwritten file is what a fresh write of the new object alone gives
             # (same header cards, one HDU), whatever the path held before
@@ -903,7 +1014,7 @@ def body_imaging(inp, H, W, flip):
             A["imaging.shape"], E["imaging.shape"] = _get(back, lambda b: list(b.data.shape_native)), [H, W]
             A["imaging.header_scale"] = _get(back, lambda b: _hdr_scales(b.data.header.header_sci_obj))
             E["imaging.header_scale"] = [s, s]
-            A["imaging.exists_no_overwrite"] = hx.attempt(lambda: ds.output_to_fits(data_path=pd_, psf_path=pk, noise_map_path=pn))
+            A["imaging.exists_no_overwrite"] = _fails(hx.attempt(lambda: ds.output_to_fits(data_path=pd_, psf_path=pk, noise_map_path=pn)))
             E["imaging.exists_no_overwrite"] = hx.Raised("OSError")
             A["imaging.overwrite"] = hx.attempt(lambda: ds.output_to_fits(data_path=pd_, psf_path=pk, noise_map_path=pn, overwrite=True))
             E["imaging.overwrite"] = None
@@ -965,6 +1076,50 @@ def case_2d(ctx, H, W, flip, masks="all", full=True):
             known[key] = {"aniso-pixel-scale": sy.t != sx.t}
     hx.run_body(ctx, body_2d, inputs, {"H": H, "W": W, "flip": flip, "full": full}, validate_every=16,
                 tol={k: SCALE_TOL for k in SCALE_KEYS_2D}, known=known or None)
+
+
+TINY = 2.0 ** -30
+
+
+def _tiny_values(ctx, name, shape):
+    """values 2^-30 * (n + 1/3), n a symbolic integer in [-1000, 1000]: tiny magnitude (|v| < 1e-6), both signs, and never
+    representable in single precision (the float64 nearest to n + 1/3 carries the 0101.. pattern down to its last mantissa bit),
+    hence r32(v) != v - stated to the solver for the uninterpreted rounding function"""
+    n = V.int_array(name, shape) if hasattr(V, "int_array") else None
+    if n is None:
+        n = np.empty(shape, dtype=object)
+        for idx in np.ndindex(*shape):
+            n[idx] = V.integer("%s_%s" % (name, "_".join(map(str, idx))))
+    f = ctx.uf("r32", 1)
+    out = np.empty(shape, dtype=object)
+    for idx in np.ndindex(*shape):
+        ctx.assume(z3.And(n[idx].t >= -1000, n[idx].t <= 1000))
+        t = V.rval(TINY) * (z3.ToReal(n[idx].t) + z3.RealVal("1/3"))
+        ctx.assume(f(t) != t)
+        out[idx] = V.SymReal(t)
+    return out
+
+
+def case_tiny(ctx, H, W, flip, masks="checker"):
+    """small-magnitude regime of the 2D round trips (same body and obligations as case_2d; value comparison is exact)"""
+    mask = _family_mask(masks, H, W)
+    ctx.set_case(mask=mask.tolist())
+    sy, sx = V.real("sy"), V.real("sx")
+    ctx.assume(z3.And(sy.t > 0, sx.t > 0))
+    _margin(ctx, sy, sx)
+    inputs = {"mask": mask, "v": _tiny_values(ctx, "nv", (H, W)), "k": _tiny_values(ctx, "nk", (H, W)), "scales": [sy, sx]}
+    hx.run_body(ctx, body_2d, inputs, {"H": H, "W": W, "flip": flip, "full": False}, validate_every=1, tol={k: SCALE_TOL for k in SCALE_KEYS_2D})
+
+
+def case_tiny_1d(ctx, N, flip):
+    mask = np.zeros(N, dtype=bool)
+    mask[0] = N > 1
+    ctx.set_case(mask=mask.tolist())
+    s = V.real("s")
+    ctx.assume(s.t > 0)
+    inputs = {"mask": mask, "v": _tiny_values(ctx, "nv", (N,)), "scale": s}
+    keys = ["arr1d.file.header_scale", "arr1d.hdu.pixel_scales", "mask1d.file.header_scale", "mask1d.hdu.pixel_scales"]
+    hx.run_body(ctx, body_1d, inputs, {"N": N, "flip": flip}, validate_every=1, tol={k: SCALE_TOL for k in keys})
 
 
 def case_1d(ctx, N, flip):
@@ -1059,7 +1214,7 @@ def case_imaging(ctx, H, W, flip):
     hx.run_body(ctx, body_imaging, inputs, {"H": H, "W": W, "flip": flip}, validate_every=1, tol={"imaging.header_scale": SCALE_TOL})
 
 
-BODIES = {"case_2d": body_2d, "case_1d": body_1d, "case_fs": body_fs, "case_derived": body_derived, "case_hdu_index": body_hdu_index, "case_imaging": body_imaging}
+BODIES = {"case_2d": body_2d, "case_1d": body_1d, "case_fs": body_fs, "case_derived": body_derived, "case_tiny": body_2d, "case_tiny_1d": body_1d, "case_hdu_index": body_hdu_index, "case_imaging": body_imaging}
 
 
 def cases(tier):
@@ -1092,6 +1247,9 @@ def cases(tier):
                 for fam in MASK_FAMILY[1:]:
                     out.append(("case_derived", {"H": H, "W": W, "flip": flip, "dims": 2, "masks": fam}))
     for flip in (False, True):
+        for (H, W, fam) in ((2, 3, "checker"), (3, 2, "none"), (1, 3, "corner"), (3, 1, "none")) + (((3, 4, "checker"),) if tier != "quick" else ()):
+            out.append(("case_tiny", {"H": H, "W": W, "flip": flip, "masks": fam}))
+        out.append(("case_tiny_1d", {"N": 3, "flip": flip}))
         for writer in FS_WRITERS:
             for kind in FS_KINDS:
                 if writer in ("mask2d", "mask1d"):      # old and new mask bits forked
@@ -1114,4 +1272,8 @@ def replay(cand):
     """real astropy, real temporary directory, untouched repository code; only the reported obligation decides"""
     cand = dict(cand)
     cand["case_kwargs"] = {k: v for k, v in cand["case_kwargs"].items() if k != "masks"}   # bodies receive the mask itself
-    return hx.replay_body(BODIES[cand["case_fn"]], cand, key=cand["obligation"])
+    key = cand["obligation"]
+    # "identical native values": pixel values are compared exactly (they are only copied / reordered / multiplied by 0 or 1); header
+    # scales pass through astropy's 16-digit cards and Imaging re-normalises its PSF, those keep the default tolerance
+    exact = key.endswith((".native", ".stored")) or (key.endswith(".read") and cand["case_kwargs"].get("writer") != "imaging")
+    return hx.replay_body(BODIES[cand["case_fn"]], cand, key=key, tol=0.0 if exact else 1e-7)
